@@ -1,4 +1,5 @@
 import Acra.Lemmas.PMT
+import Acra.Lemmas.ReviewC06
 import Acra.Spec.MPEG
 namespace Acra.Props.C06
 open Acra.Py Acra.Model.MPEGTS Acra.Model.PMT Acra.Gen.PMT Acra.Lemmas.MPEGTS Acra.Lemmas.PMT
@@ -84,5 +85,35 @@ example : PMT_WF { PMT.fresh with
   · intro a ha; simp [Pkt.fresh] at ha
   · intro d hd; simp at hd; subst hd; exact ⟨5, rfl, by decide, by decide⟩
   · intro x hx; simp at hx; rcases hx with rfl | rfl <;> exact ⟨by decide, by decide, by decide⟩
+
+/-! ### review additions: joint witnesses -/
+
+/-- one descriptor, two streams (one with ES descriptors), payload only -/
+def pmtExample : PMT :=
+  { PMT.fresh with
+    pkt := { Pkt.fresh with adaption_ctrl := 1 }, program_number := 1, pcr_pid := 0x100,
+    descriptor_tags := [{ tag := some 5, data := [1, 2] }],
+    streams := [{ streamtype := 0x1B, elementary_pid := 0x100, elementary_stream_descriptors := [] },
+                { streamtype := 0x0F, elementary_pid := 0x101, elementary_stream_descriptors := [9, 9, 9] }] }
+
+/-- joint witness for `PMT_roundtrip` (all four hypotheses) … -/
+example : PMT_WF pmtExample ∧ pmtExample.pkt.sync = 0x47 ∧
+    (pmtExample.pkt.adaption_ctrl = 1 ∨ pmtExample.pkt.adaption_ctrl = 3) ∧ Pkt_used (PMT_pkt pmtExample) ≤ 188 := by
+  decide +kernel
+
+/-- … and for the boundary case of the quantifier: 0 descriptors and 0 streams, behind adaptation stuffing -/
+example :
+    let s : PMT :=
+      { PMT.fresh with
+        pkt := { Pkt.fresh with adaption_ctrl := 3, adaption_field := some { AF.fresh with length := 20 } } }
+    s.descriptor_tags = [] ∧ s.streams = [] ∧ PMT_WF s ∧ s.pkt.sync = 0x47 ∧
+    (s.pkt.adaption_ctrl = 1 ∨ s.pkt.adaption_ctrl = 3) ∧ Pkt_used (PMT_pkt s) ≤ 188 := by
+  decide +kernel
+
+/-- what `hafc` excludes (E6): a FRESH `MPEGPacketPMT()` has adaptation control 0; it is well formed and packs, but its
+    own encoding cannot be decoded (`struct.error`: no payload is decoded with control 0) -/
+example : PMT_WF PMT.fresh ∧ PMT.fresh.pkt.adaption_ctrl = 0 ∧
+    (match (PMT.unpack PMT.fresh (Pkt_bytes (PMT_pkt PMT.fresh))).2 with | .error .struct => true | _ => false) = true := by
+  decide +kernel
 
 end Acra.Props.C06
